@@ -41,6 +41,7 @@ def rules(ctx):
     from . import C05
     C05.c051(ctx)
     C05.c055(ctx)
+    C05.c059(ctx)   # outputs are cut only between keys: a straddled key can be carried beneath its own older versions
     # what a read sees is governed by the snapshot it captures and the visibility watermark (a watermark that is not advanced,
     # or a snapshot taken outside the lock, returns an older value even without concurrency beyond the flush thread)
     C06.c063(ctx)
@@ -284,6 +285,41 @@ def c011_version(ctx):
     ctx.check(R, f, "l0-first", p is None, "deeper levels are reached only through the L0 loop", "a deeper level can be consulted before level 0", pt=b[0], path=p)
     p = P.reach(f, P.after(f, b[0]), a)
     ctx.check(R, f, "never-back-to-l0", p is None, "level 0 is never consulted after a deeper level", "level 0 is consulted after a deeper level", pt=b[0], path=p)
+    # every file of a deeper level that can hold the key is consulted: the versions of one key can span adjacent files of a level
+    # (outputs are cut by size), so the site sits in a loop over level.ssts[lower_bound(key)..upper_bound(key)] (or over the whole level)
+    hb = heads[b[0]]
+    in_sst_loop = False
+    why = "the deeper-level lookup is not inside a loop over the level's files"
+    for h in hb:
+        ity = K.loop_iterator_type(f, h)
+        if "SstMetadata" not in ity:
+            continue
+        in_sst_loop = True
+        if K.DROPPING_ADAPTERS.search(ity):
+            in_sst_loop, why = False, "the loop over the level's files drops elements (%s)" % ity
+            continue
+        sub = K.loop_source_subslice(f, h)
+        if sub is not None:
+            t_h = P.term_at(f, h)
+            base = K.ref_base(f, t_h["args"][0])
+            lo = hi = False
+            for q in P.origins(f, {"k": "copy", "pl": {"l": base, "p": []}}):
+                if q["k"] == "call" and re.search(r"index::index$|Index.*::index$", q["callee"]) and len(q["t"]["args"]) == 2:
+                    for r_ in P.origins(f, q["t"]["args"][1]):
+                        if r_["k"] == "agg" and (r_.get("adt") or "").endswith("range::Range"):
+                            ops = r_["st"]["rv"]["ops"]
+                            lo = any(x["k"] == "call" and x["callee"].endswith("Level::lower_bound") for x in P.value_slice(f, ops[0])[0]) and \
+                                not any(x["k"] == "bin" for x in P.value_slice(f, ops[0])[0])
+                            hi = any(x["k"] == "call" and x["callee"].endswith("Level::upper_bound") for x in P.value_slice(f, ops[1])[0]) and \
+                                not any(x["k"] == "bin" for x in P.value_slice(f, ops[1])[0])
+            if not (lo and hi):
+                in_sst_loop, why = False, "the files consulted are not level.ssts[lower_bound(key)..upper_bound(key)]"
+    sst_arg = P.term_at(f, b[0])["args"][3] if len(P.term_at(f, b[0])["args"]) > 3 else None
+    elem = sst_arg is not None and any(x["k"] == "call" and x["callee"].endswith("Iterator>::next") for x in P.origins(f, sst_arg))
+    ctx.check(R, f, "every-candidate-file", in_sst_loop and elem,
+              "in a deeper level every file between lower_bound(key) and upper_bound(key) is consulted, in order",
+              "Version::load consults at most one file of a deeper level (%s): compaction outputs are cut by size, so the versions of one key can "
+              "span two adjacent files with the newest in the first, and the read returns a stale value" % why, pt=b[0])
     # newest first
     sk = ctx.calls(R, f, r"sort_by_key$")
     for pt in sk:
